@@ -207,6 +207,10 @@ def gen_op(rng, tree: TreeModel, classes, swarm, recent=None):
             return ["mkdir", _fresh_name(rng, tree, parent, DIRNAMES)]
         if k == "mkfile":
             parent = _pick_dir(rng, dirs, recent, tree)
+            if rng.random() < swarm.get("suffixless_p", 0.0):
+                # a file whose name could as well be a folder's: over a history the same
+                # path can then be a file at one time and a folder at another
+                return ["mkfile", _fresh_name(rng, tree, parent, DIRNAMES)]
             return ["mkfile", _fresh_name(rng, tree, parent, NAMES, ".py")]
         if k == "move":
             movable = files + [d for d in dirs if d]
